@@ -53,8 +53,57 @@ func updateValueEffects(f *ssa.Function) (store *ssa.Store, fanouts []ssa.Instru
 				fanouts = append(fanouts, i)
 			}
 		}
+		if dispatchesCallbacksOf(cc, f.Params[0]) {
+			fanouts = append(fanouts, i)
+		}
 	})
 	return
+}
+
+// dispatchesCallbacksOf: the call hands the characteristic ch to a module function that runs the callbacks registered on that
+// parameter itself ( c.onValueUpdate(new, old)  with  for _, fn := range c.valueChangeFuncs { fn(c, new, old) }  inside ).
+func dispatchesCallbacksOf(cc *ssa.CallCommon, ch ssa.Value) bool {
+	h := cc.StaticCallee()
+	if h == nil || !core.InModule(h) || h.Blocks == nil {
+		return false
+	}
+	for k, a := range cc.Args {
+		if a != ch || k >= len(h.Params) {
+			continue
+		}
+		pr := h.Params[k]
+		found := false
+		core.Instrs(h, func(j ssa.Instruction) {
+			dc := core.CallOf(j)
+			if dc == nil || dc.IsInvoke() || dc.StaticCallee() != nil {
+				return
+			}
+			if _, isBuiltin := dc.Value.(*ssa.Builtin); isBuiltin {
+				return
+			}
+			if core.AnySource(dc.Value, func(s ssa.Value) bool {
+				u, ok := s.(*ssa.UnOp)
+				if !ok {
+					return false
+				}
+				ia, ok := u.X.(*ssa.IndexAddr)
+				if !ok {
+					return false
+				}
+				return core.AnySource(ia.X, func(sv ssa.Value) bool {
+					b1, a := core.FieldLoad(sv, tChar, "connValueUpdateFuncs")
+					b2, b := core.FieldLoad(sv, tChar, "valueChangeFuncs")
+					return (a && b1 == ssa.Value(pr)) || (b && b2 == ssa.Value(pr))
+				})
+			}) {
+				found = true
+			}
+		})
+		if found {
+			return true
+		}
+	}
+	return false
 }
 
 func c11r1(c *core.Ctx) {
@@ -327,6 +376,16 @@ func c11r5(c *core.Ctx) {
 							if isPerms(a) {
 								kk := k
 								scan(h, func(v ssa.Value) bool { return valIs(v, h.Params[kk]) }, depth-1)
+							}
+							// the characteristic itself is handed on ( readPerm(c) ): the helper scans the Perms of that parameter
+							if g == f && a == ssa.Value(f.Params[0]) && k < len(h.Params) {
+								kk := k
+								scan(h, func(v ssa.Value) bool {
+									return core.AllSources(v, func(s ssa.Value) bool {
+										b, ok := core.FieldLoad(s, tChar, "Perms")
+										return ok && b == ssa.Value(h.Params[kk])
+									})
+								}, depth-1)
 							}
 						}
 					}
